@@ -1921,8 +1921,12 @@ def ltu(x, y):
             return op(OP_LTU, x, y)
     except AttributeError:
         pass
+    xsf, ysf = x.sf, y.sf
     x.sf = y.sf = False
-    return x < y
+    try:
+        return x < y
+    finally:
+        x.sf, y.sf = xsf, ysf
 
 
 def geu(x, y):
@@ -1932,8 +1936,12 @@ def geu(x, y):
             return op(OP_GEU, x, y)
     except AttributeError:
         pass
+    xsf, ysf = x.sf, y.sf
     x.sf = y.sf = False
-    return x >= y
+    try:
+        return x >= y
+    finally:
+        x.sf, y.sf = xsf, ysf
 
 
 OP_ARITH = {
@@ -2002,7 +2010,14 @@ class _operator(object):
             assert self.unary
             return self.impl(l)
         if self.unsigned:
+            # operands are read as unsigned, but they are not ours to modify
+            # (they may be shared, e.g. the values held by a mapper):
+            lsf, rsf = l.sf, r.sf
             l.sf = r.sf = False
+            try:
+                return self.impl(l, r)
+            finally:
+                l.sf, r.sf = lsf, rsf
         return self.impl(l, r)
 
     def __mul__(self, op):
